@@ -595,7 +595,7 @@ func (g *c15Gen) chunkOp(writers *[]string) string {
 	case 7, 8:
 		return fmt.Sprintf("mem resume %s %s %d", tok(w[0]), tok(w[1]), int64(rng.Intn(8))-1)
 	case 9:
-		if rng.Chance(1, 3) {
+		if rng.Chance(2, 3) {
 			return fmt.Sprintf("mem wcancel %s %s", tok(w[0]), tok(w[1]))
 		}
 		fallthrough
@@ -703,6 +703,28 @@ func (*c15) Gen(rng *RNG, tier string) []Case {
 			g.add("u", fmt.Sprintf("mem wcommit %s %s %s", a, id, tok(sha256Digest([]byte("hello")))))
 			g.lines = append(g.lines, "uni snap")
 		})
+	}
+	// 2b. a cancelled upload stays cancelled on both members, also when it is resumed
+	for pol := 0; pol < 2; pol++ {
+		for _, resume := range []bool{false, true} {
+			mk("chunked:cancel", pol, 0, func(g *c15Gen) {
+				a := tok("a")
+				id := tok("@0")
+				dig := tok(sha256Digest([]byte("cancelled")))
+				g.add("u", "mem pushchunked "+a)
+				g.add("u", fmt.Sprintf("mem wwrite %s %s %s", a, id, tok("cance")))
+				g.add("u", fmt.Sprintf("mem wcancel %s %s", a, id))
+				g.add("u", fmt.Sprintf("mem wsize %s %s", a, id))
+				if resume {
+					g.add("u", fmt.Sprintf("mem wclose %s %s", a, id))
+					g.add("u", fmt.Sprintf("mem resume %s %s 5", a, id))
+				}
+				g.add("u", fmt.Sprintf("mem wwrite %s %s %s", a, id, tok("lled")))
+				g.writeWithProbes(fmt.Sprintf("mem wcommit %s %s %s", a, id, dig))
+				g.quad(fmt.Sprintf("mem getblob %s %s", a, dig))
+				g.lines = append(g.lines, "uni snap")
+			})
+		}
 	}
 	nHist, nRel, nMerge, histLen, nReads := 220, 120, 400, 40, 30
 	if tier == "thorough" {
